@@ -71,7 +71,10 @@ def r2_dedup(ctx):
     ctx.ob('C03.R2', 'one-deduplicator-per-graph', ok, news[0][0].loc(news[0][1]) if news else bodies[0].loc(),
            'NodeDeduplicator::new() call sites: %d; inside a loop: %s' % (len(news), [bb in b.reachable(b.succ(bb)) for b, bb in news]))
     n = 0
-    for b in bodies:
+    from .compiler_common import family_bodies
+    for b in family_bodies(ctx, 'pavexc', [CG + 'core_graph::build_call_graph']):
+        if b.is_promoted:
+            continue
         dd = [bb for bb, t in b.calls() if callee(t) == CG + 'core_graph::NodeDeduplicator::add_node_at_most_once']
         raw = [bb for bb, t in b.calls() if (callee(t) or '').endswith('StableGraph::add_node') and bb not in dd]
         if not dd or not raw:
@@ -246,6 +249,8 @@ def r7_expanded_once(ctx):
     b = ctx.need('C03.R7', 'build_call_graph', ctx.fb.body('pavexc', A + 'call_graph::core_graph::build_call_graph'))
     if b is None:
         return
+    from ..inline import inlined
+    b = inlined(ctx.fb, b)
     exp = [(bb, t) for bb, t in b.calls() if (callee(t) or '').endswith('::input_types') and bb in b.reachable(b.succ(bb))]
     if not ctx.need('C03.R7', 'input_types() expansion sites inside the loop of build_call_graph', exp):
         return
